@@ -129,6 +129,30 @@ Theorem C17_hashfile_fresh :
 Proof. exact hashfile_fresh. Qed.
 Print Assumptions C17_hashfile_fresh.
 
+(* In particular for every history in which each write gets a later mtime
+   than all writes before it. *)
+Theorem C17_hashfile_fresh_monotone_clock :
+  forall (C ARGS HV E : Type) (aeqb : ARGS -> ARGS -> bool) (size_of : C -> Z)
+         (fresh : C -> ARGS -> HV + E) (maxsize : Z),
+    (forall x y : ARGS, aeqb x y = true <-> x = y) ->
+    forall (ops : list (fop C ARGS)) (t0 : Z),
+      mono C ARGS t0 ops ->
+      map (fobs HV E)
+          (snd (frun C ARGS HV E aeqb size_of fresh maxsize {| f_fs := []; f_lru := [] |} ops))
+      = fspec C ARGS HV E fresh [] ops.
+Proof. exact hashfile_fresh_monotone_clock. Qed.
+Print Assumptions C17_hashfile_fresh_monotone_clock.
+
+Theorem C17_hashfile_cache_bounded :
+  forall (C ARGS HV E : Type) (aeqb : ARGS -> ARGS -> bool) (size_of : C -> Z)
+         (fresh : C -> ARGS -> HV + E) (maxsize : Z),
+    (forall x y : ARGS, aeqb x y = true <-> x = y) ->
+    forall (ops : list (fop C ARGS)) (s : fstate C ARGS HV),
+    0 <= maxsize -> Z.of_nat (length (f_lru s)) <= maxsize ->
+    Z.of_nat (length (f_lru (fst (frun C ARGS HV E aeqb size_of fresh maxsize s ops)))) <= maxsize.
+Proof. exact hashfile_bounded. Qed.
+Print Assumptions C17_hashfile_cache_bounded.
+
 Theorem C17_hashfile_same_stat_refuted :
   exists ops : list (fop (Z * Z) Z),
     map (fobs Z Z) (snd (frun (Z * Z) Z Z Z Z.eqb snd hf_fresh 100
